@@ -198,6 +198,7 @@ func (e *daemonEngine) body(res *RunResult) {
 		tl = append(tl, timed{at: genesis.Add(time.Duration(p.AtRound-1)*e.period() + 300*time.Millisecond), rs: p})
 	}
 	sort.SliceStable(tl, func(i, j int) bool { return tl[i].at.Before(tl[j].at) })
+	var reshareDone chan struct{}
 	for _, x := range tl {
 		if d := time.Until(x.at); d > 0 {
 			time.Sleep(d)
@@ -206,7 +207,18 @@ func (e *daemonEngine) body(res *RunResult) {
 		if x.act != nil {
 			e.apply(*x.act)
 		} else {
-			e.reshare("default", x.rs)
+			// the operator drives the resharing on the side: faults and clients keep their own schedule
+			prev := reshareDone
+			done := make(chan struct{})
+			reshareDone = done
+			rs := x.rs
+			go func() {
+				defer close(done)
+				if prev != nil {
+					<-prev
+				}
+				e.reshare("default", rs)
+			}()
 		}
 	}
 	if d := time.Until(e.start.Add(time.Duration(sc.HealAtMs) * time.Millisecond)); d > 0 {
@@ -222,6 +234,15 @@ func (e *daemonEngine) body(res *RunResult) {
 	}
 	time.Sleep(e.period()/2 + 13*time.Millisecond)
 	synctest.Wait()
+	if reshareDone != nil {
+		select {
+		case <-reshareDone:
+		case <-time.After(3 * time.Minute):
+			e.rec.Count("probe:reshare_driver_still_busy_at_end", 1)
+		}
+		time.Sleep(e.period()/2 + 13*time.Millisecond)
+		synctest.Wait()
+	}
 	res.VirtualMs = time.Since(e.start).Milliseconds()
 	e.finalChecks(healAt, res)
 	if sc.Crash != nil {
@@ -317,23 +338,21 @@ func (e *daemonEngine) reshare(id string, p *ResharePlan) {
 	case "exec_partition":
 		// execution starts, then more than n-t of the new group are cut off until it has failed
 		_ = e.cmd(leader, id, &pdkg.DKGCommand{Command: &pdkg.DKGCommand_Execute{Execute: &pdkg.ExecutionOptions{}}})
-		var cut, rest []string
-		need := len(members) - p.NewT + 1
-		for k := len(members) - 1; k >= 0; k-- {
-			i := members[k]
-			if len(cut) < need && e.nodes[i] != leader {
-				cut = append(cut, e.nodes[i].addr)
-			} else {
-				rest = append(rest, e.nodes[i].addr)
-			}
+		// every participant is cut off from every other one until the attempt has failed
+		var all []string
+		for _, i := range members {
+			all = append(all, e.nodes[i].addr)
 		}
 		for _, i := range p.Leave {
-			rest = append(rest, e.nodes[i].addr)
+			all = append(all, e.nodes[i].addr)
 		}
 		time.Sleep(time.Duration(e.sc.KickoffS)*time.Second - 100*time.Millisecond)
-		e.w.Partition(cut, rest)
+		for i := range all {
+			e.w.Partition(all[i:i+1], append(append([]string(nil), all[:i]...), all[i+1:]...))
+		}
 		time.Sleep(time.Until(timeout) + 2*time.Second)
 		e.w.Heal()
+		e.lastFault = time.Now()
 	default:
 		if err := e.cmd(leader, id, &pdkg.DKGCommand{Command: &pdkg.DKGCommand_Execute{Execute: &pdkg.ExecutionOptions{}}}); err != nil {
 			e.rec.Ev("reshare_execute_failed", leader.addr, "%v", err)
@@ -374,6 +393,19 @@ func (e *daemonEngine) reshare(id string, p *ResharePlan) {
 	}
 	cc.epochs = append(cc.epochs, ep)
 	e.rec.Count("probe:reshare_completed", 1)
+	if p.StopLeavers && len(p.Leave) > 0 {
+		at := time.Unix(ep.group.TransitionTime, 0).Add(-e.period() / 2)
+		leavers := append([]int(nil), p.Leave...)
+		go func() {
+			if d := time.Until(at); d > 0 {
+				time.Sleep(d)
+			}
+			for _, i := range leavers {
+				e.stopDaemon(e.nodes[i])
+			}
+			e.rec.Count("fault:leaver_shut_down_at_transition", 1)
+		}()
+	}
 }
 
 // ---------------------------------------------------------------- script
@@ -692,6 +724,9 @@ func (e *daemonEngine) checkInfoJSON(n *dNode, body []byte) {
 
 func (e *daemonEngine) finalChecks(healAt time.Time, res *RunResult) {
 	sc := e.sc
+	if e.lastFault.After(healAt) {
+		healAt = e.lastFault
+	}
 	id := "default"
 	cc := e.chains[id]
 	members := e.currentMembers(id)
@@ -797,6 +832,11 @@ func (e *daemonEngine) finalChecks(healAt time.Time, res *RunResult) {
 				if g := bp.VerifGroup(); g != nil {
 					tts[g.TransitionTime] = true
 				}
+			}
+		}
+		for _, ep := range cc.epochs {
+			if ep.ttDiffer {
+				tts[-1] = true
 			}
 		}
 		if len(tts) > 1 {
